@@ -1,5 +1,8 @@
 """C16 — copies and derived sequences are independent values."""
+import json
+
 import gens as G
+import h4seq_util as U
 import histories as H
 import pyimpl as P
 from oracle_util import *  # noqa
@@ -46,9 +49,12 @@ CLAUSES = [
     ('the link through which the translated sequences_split_bars reads the signature and key queues (AbsoluteSequence.get_message_times_of_type, a hand-written definition in Model/StaticLib.lean) is what the TRANSLATED method computes on a freshly built list, read back through the heap (audit round 3 R1: an edit of that method now breaks this obligation)',
      ["SCoda.StaticLink.timesOfType_link", "SCoda.AbsTie2.getMessageTimesOfType_eq", "SCoda.AbsTie2.timesOfType_init"]),
 ]
-RULE = ("originals (<=6 notes, 1-2 channels, signatures) x derivation routes (Sequence.copy, split, sequences_split_bars with "
+RULE = ("originals (<=6 notes, 1-2 channels, key signatures, control / program changes, time signatures anywhere for copy / split and on bar lines for the "
+        "bar routes) x derivation routes (Sequence.copy, split, sequences_split_bars with "
         "either re-quantisation setting, Bar.copy, Track.copy, Composition.copy) x histories of <=8 public operations on either "
-        "side; non-trivial = history contains an in-place mutator (transpose, set_channel, scale, edit, quantise, cutoff)")
+        "side, a quarter of them with one side handed to the other through concatenate (D24d); copies of bars / tracks / compositions built directly from "
+        "plain data (attributes, name, program, both views of every bar against the data put in); non-trivial = history contains an in-place mutator "
+        "(transpose, set_channel, scale, edit, quantise, cutoff)")
 ASSUMPTIONS = ["freshness typing rules are trusted as a description of Python aliasing: `<x>.copy()` is fresh provided every copy method in the "
                "route list returns a fresh value (checked for each), constructor calls with fresh/scalar arguments are fresh, reads of "
                "scalar attributes (numbers, strings, enum members, flags) are immutable values, anything else read from self or a "
@@ -57,12 +63,8 @@ ASSUMPTIONS = ["freshness typing rules are trusted as a description of Python al
                "decided by the identity/snapshot harness on the real objects plus the value-level model of copy/split",
                "histories whose sequence-valued arguments come from the other side (concatenate/merge share messages by design) are out of scope"]
 ROUTES = ["copy", "split", "bars", "bars-requant", "bar-copy", "track-copy", "composition-copy"]
+TRACK_NAME = "Klavier I"
 INPLACE = {"editAbsPeek", "editRelPeek", "editAbsFirst", "editRelFirst", "transpose", "setChannel", "scale", "editAbs", "editRel", "quantise", "cutoff", "qnl"}
-
-
-def snapshot(s):
-    c = s.copy()
-    return ([from_real(m) for m in c.abs._messages], [from_real(m) for m in c.rel._messages])
 
 
 def ids_of(s):
@@ -123,29 +125,94 @@ def derive(route, orig, rng_cuts):
     bars = tb[0]
     if route == "bar-copy":
         cp = [b.copy() for b in bars]
-        return [c.sequence for c in cp], [bars, cp, ("orig-seqs", [b.sequence for b in bars])]
-    tr = Track(bars)
+        return [c.sequence for c in cp], [bars, cp, ("orig-seqs", [b.sequence for b in bars]), ("containers", bars, cp)]
+    tr = Track(bars, TRACK_NAME)
     if route == "track-copy":
         cp = tr.copy()
-        return [b.sequence for b in cp.bars], [tr, cp, ("orig-seqs", [b.sequence for b in bars])]
+        return [b.sequence for b in cp.bars], [tr, cp, ("orig-seqs", [b.sequence for b in bars]), ("containers", tr, cp)]
     comp = Composition([tr])
     cp = comp.copy()
-    return [b.sequence for t in cp.tracks for b in t.bars], [comp, cp, ("orig-seqs", [b.sequence for b in bars])]
+    return [b.sequence for t in cp.tracks for b in t.bars], [comp, cp, ("orig-seqs", [b.sequence for b in bars]), ("containers", comp, cp)]
+
+
+OBS = " ## observed="
+
+
+def _mk_orig(inp):
+    init = (inp["init"][0], [tuple(m) for m in inp["init"][1]])
+    orig = P.make_seq(init)
+    if inp.get("both_fresh"):
+        orig.refresh()
+    if inp.get("halved"):
+        # an original a public call left with fractional ticks (scale by 1/2 without the re-quantisation): still an original
+        orig.scale(0.5, quantise_afterwards=False)
+    return orig
+
+
+def _raw(o):
+    """the other side, looked at WITHOUT calling any of its methods: per fresh view (list of object ids, list of plain values)"""
+    out = {}
+    if not o._abs_stale and o._abs is not None:
+        out["abs"] = ([id(m) for m in o._abs._messages], [from_real(m) for m in o._abs._messages])
+    if not o._rel_stale and o._rel is not None:
+        out["rel"] = ([id(m) for m in o._rel._messages], [from_real(m) for m in o._rel._messages])
+    return out
+
+
+def _content(raw):
+    """(events, duration) the views in `raw` show (one entry per fresh view)"""
+    out = {}
+    if "abs" in raw:
+        out["abs"] = U.content_abs(raw["abs"][1])
+    if "rel" in raw:
+        out["rel"] = U.content_rel(raw["rel"][1])
+    return out
+
+
+def _fold(n):
+    while n < U.NOTE_LO:
+        n += 12
+    while n > U.NOTE_HI:
+        n -= 12
+    return n
+
+
+def _sim_inplace(op, rel, times):
+    """harness-side: the relative plain list `rel` after the in-place loop of `op` has visited every message `times` times (what happens to the
+    OTHER side's message objects once a sequence that took them in through concatenate is operated on: D24d).  None = no model here."""
+    name = op[0]
+    out = [list(m) for m in rel]
+    for _ in range(times):
+        for m in out:
+            if name == "setChannel":
+                m[CH] = op[1]
+            elif name == "scale":
+                if m[TY] == WAIT:
+                    m[TIME] = m[TIME] * op[1]
+            elif name == "transpose":
+                if m[TY] in (ON, OFF):
+                    m[NOTE] = _fold(m[NOTE] + op[1])
+                elif m[TY] == KEYSIG:
+                    return None
+            elif name in ("editRel", "editRelPeek"):
+                m[:] = list(U.edit_plain(op[1], op[2], tuple(m), True))
+            else:
+                return None
+    return [tuple(m) for m in out]
+
+
+NEUTRAL = {"readAbs", "readRel", "flags", "refresh", "pairings", "pad", "addRel", "copy", "split", "concat", "merge"}
+ENDS_SHARING = {"editAbs", "editAbsPeek", "editAbsFirst", "quantise", "qnl", "cutoff", "addAbs", "overwriteAbs", "overwriteRel", "quantiseAndNormalise"}
 
 
 def o_independent(inp):
     from props.C04 import _norm_op, views_agree
     init = (inp["init"][0], [tuple(m) for m in inp["init"][1]])
     route = inp["route"]
-    orig = P.make_seq(init)
-    if inp.get("both_fresh"):
-        orig.refresh()
-    if inp.get("halved"):
-        # an original a public call left with fractional ticks (scale by 1/2 without the re-quantisation): still an original
-        try:
-            orig.scale(0.5, quantise_afterwards=False)
-        except Exception:
-            return [("~skip:derivation-raises", "")]
+    try:
+        orig = _mk_orig(inp)
+    except Exception:
+        return [("~skip:derivation-raises", "")]
     fails = []
     try:
         derived, keep = derive(route, orig, inp.get("cuts", [24]))
@@ -153,18 +220,43 @@ def o_independent(inp):
         return [("~skip:derivation-raises", "")]
     # the object whose independence from `derived` is claimed
     watched = [orig]
+    containers = None
     for k in keep:
         if isinstance(k, tuple) and k[0] == "orig-seqs":
             watched = k[1]
-    if route in ("copy",):
-        a, b = snapshot(orig), snapshot(derived[0])
-        if rel_timed(a[1]) != rel_timed(b[1]) or not orig.equals(derived[0]):
-            fails.append(("copy-equal", "copy differs from its original"))
-    if route in ("bar-copy", "track-copy", "composition-copy"):
-        for w, d in zip(watched, derived):
-            if rel_timed(snapshot(w)[1]) != rel_timed(snapshot(d)[1]) or not w.equals(d):
-                fails.append(("copy-equal", f"{route}: copied bar differs from its original"))
+        if isinstance(k, tuple) and k[0] == "containers":
+            containers = k[1:]
+    # "a copy ... equals its original".  The expectation is the generator's plain data (or, for an original that a public call has changed
+    # since — `halved` — a second, identically built original read directly); the copy is a second copy taken for this purpose and read through
+    # its own two views.  Nothing is read through copy() of the thing being judged, and the objects of the history below are not touched.
+    if route == "copy":
+        if inp.get("halved"):
+            ea, er = U.read_direct(_mk_orig(inp))
+            exp = U.content_rel(er)
+            if U.content_abs(ea) != exp:
+                return [("~skip:original-views-disagree", "")]
+        else:
+            exp = U.content_abs(init[1]) if init[0] == "abs" else U.content_rel(init[1])
+        for order in ("abs-first", "rel-first"):
+            ca, cr = U.read_direct(_mk_orig(inp).copy(), order)
+            for nm, got in (("absolute", U.content_abs(ca)), ("relative", U.content_rel(cr))):
+                if got != exp:
+                    diff = [x for x in exp[0] if x not in got[0]][:3] + [x for x in got[0] if x not in exp[0]][:3]
+                    fails.append(("copy-equal", f"the {nm} view of the copy (read {order}) does not show the original's content: duration {got[1]} vs {exp[1]}, differing events {diff}"))
+                    break
+            if fails:
                 break
+        o3 = _mk_orig(inp)
+        if not o3.equals(o3.copy()) or not (o3 == o3.copy()):
+            fails.append(("copy-equal", "original.equals(copy) / original == copy is False"))
+    if route in ("bar-copy", "track-copy", "composition-copy"):
+        # the copied container against the container it was copied from: every bar's attributes and content (a second copy, read directly,
+        # against the original bar looked at without calling anything on it), the track's name and program
+        try:
+            f = containers_equal(route, containers, init)
+        except Exception as e:
+            f = [("copy-equal", f"{route}: comparing the copy raised {type(e).__name__}: {e}")]
+        fails.extend(f)
     shared = set()
     for w in watched:
         for d in derived:
@@ -194,54 +286,263 @@ def o_independent(inp):
         else:
             continue
         break
-    # mutate one side, watch the other
+    # mutate one side, watch the other (the other side is only LOOKED at — private fields, no method call — until the history is over)
     side = inp.get("side", "derived")
     targets, others = (derived, watched) if side == "derived" else (watched, derived)
-    before = [snapshot(o) for o in others]
+    before = [_raw(o) for o in others]
+    first = [_content(b) for b in before]
+    took = [dict() for _ in targets]          # target index -> {other index: how often its message objects sit in the target's relative list}
+    shared_ids = [set() for _ in others]      # message objects of the other side that a target took in through concatenate
+    pred = [None] * len(others)               # predicted relative plain list of the other side (D24d), while the history stays inside the modelled class
+    simulable = True
     for op in inp["ops"]:
         op = _norm_op(tuple(op))
         if op[0] == "concatOther":
             # the touched side takes the OTHER side in as an argument of concatenate (it then holds the other side's message objects:
-            # known finding D24d); afterwards operations on it reach the other side
+            # known finding D24d); afterwards in-place operations on it reach the other side
             for ti in range(len(targets)):
+                oj = min(ti, len(others) - 1)
                 try:
-                    targets[ti].concatenate([others[min(ti, len(others) - 1)]])
+                    targets[ti].concatenate([others[oj]])
                 except Exception:
-                    pass
+                    simulable = False
+                    continue
+                now = _raw(others[oj])
+                c_now = _content(now)
+                # concatenate reads its argument's relative view (it may have to be regenerated): the argument's content must be what it was
+                was = first[oj].get("rel") or first[oj].get("abs")
+                if pred[oj] is None and (c_now.get("rel") != was or ("abs" in c_now and "abs" in first[oj] and c_now["abs"] != first[oj]["abs"])):
+                    fails.append(("independent", "concatenate changed the content of its ARGUMENT (the other side)" + OBS + json.dumps(
+                        {"only_shared_objects_changed": False, "predicted": None, "observed": now.get("rel", ([], []))[1]})))
+                    return fails
+                if pred[oj] is None:
+                    before[oj] = now
+                    pred[oj] = list(now["rel"][1]) if "rel" in now else None
+                elif "rel" in now and "rel" not in before[oj]:
+                    before[oj] = dict(before[oj], rel=now["rel"])
+                shared_ids[oj] |= set(now.get("rel", ([], []))[0])
+                took[ti][oj] = took[ti].get(oj, 0) + 1
             continue
         if op[0] in ("concat", "merge", "copy", "split"):
             continue
         for ti in range(len(targets)):
+            raised = False
             try:
                 targets[ti], _ = P._seq_step(targets[ti], op)
             except Exception:
+                raised = True
+            if not took[ti]:
+                continue
+            # what this does to the message objects the target took in (harness-side model; outside it `simulable` goes False)
+            name = op[0]
+            inplace = name in ("setChannel", "editRel", "editRelPeek") or (name == "scale" and isinstance(op[1], int) and op[1] >= 1) or name == "transpose"
+            if raised:
+                simulable = False
+            elif inplace:
+                for oj, times in took[ti].items():
+                    if pred[oj] is not None:
+                        pred[oj] = _sim_inplace(op, pred[oj], times)
+                        if pred[oj] is None:
+                            simulable = False
+                if name == "scale" and op[2]:
+                    took[ti] = {}          # quantise_and_normalise afterwards: the relative list is regenerated from the absolute view
+                if name == "transpose" and targets[ti]._rel_stale:
+                    took[ti] = {}          # a note had to be folded: normalise + quantise_note_lengths followed, the relative list is discarded
+            elif name in ENDS_SHARING:
+                took[ti] = {}          # the target's relative list is discarded (regenerated from its absolute view, whose messages are copies)
+            elif name in NEUTRAL:
                 pass
-    after = [snapshot(o) for o in others]
+            else:
+                simulable = False      # normalise (keeps the note objects, replaces the waits), edits of the first message only, ...
+    after = [_raw(o) for o in others]
     for i, (x, y) in enumerate(zip(before, after)):
-        if x != y:
-            fails.append(("independent", f"operations on the {side} side changed the other side (object {i}): {[o[0] for o in inp['ops']]}"))
+        changed_views = [v for v in ("abs", "rel") if v in x and v in y and x[v] != y[v]]
+        vanished = [v for v in ("abs", "rel") if v in x and v not in y]
+        if changed_views or vanished:
+            # is the change confined to VALUES of message objects that a target took in through concatenate (same lists, same objects)?
+            only_shared = not vanished and all(
+                x[v][0] == y[v][0] and all(a == b or oid in shared_ids[i] for oid, a, b in zip(x[v][0], x[v][1], y[v][1])) for v in changed_views)
+            obs = {"only_shared_objects_changed": bool(only_shared and shared_ids[i]), "predicted": ([list(m) for m in pred[i]] if (simulable and pred[i] is not None) else None),
+                   "observed": [list(m) for m in y["rel"][1]] if "rel" in y else None}
+            fails.append(("independent", f"operations on the {side} side changed the other side (object {i}, view(s) {changed_views + vanished}): "
+                          f"{[o[0] for o in inp['ops']]}" + OBS + json.dumps(obs)))
             break
-    for o in others:
+    for i, o in enumerate(others):
+        y = after[i]
         try:
             f = views_agree(o)
         except Exception as e:
             f = [("views", f"reading raised {type(e).__name__}")]
         if f:
-            fails.append(("views", f"other side's views disagree after operations on the {side} side: {f[0][1]}"))
+            x = before[i]
+            only_shared = bool(shared_ids[i]) and ("abs" not in x or ("abs" in y and x["abs"] == y["abs"])) and "rel" in x and "rel" in y and \
+                x["rel"][0] == y["rel"][0] and all(a == b or oid in shared_ids[i] for oid, a, b in zip(x["rel"][0], x["rel"][1], y["rel"][1]))
+            obs = {"only_shared_objects_changed": bool(only_shared), "predicted": ([list(m) for m in pred[i]] if (simulable and pred[i] is not None) else None),
+                   "observed": [list(m) for m in y["rel"][1]] if "rel" in y else None}
+            fails.append(("views", f"other side's views disagree after operations on the {side} side: {f[0][1]}" + OBS + json.dumps(obs)))
             break
     return fails
 
 
+def containers_equal(route, containers, init):
+    """`containers` = (original container, its copy): list of bars / Track / Composition"""
+    orig_c, copy_c = containers
+    fails = []
+
+    def bars_of(c):
+        if isinstance(c, list):
+            return [c]
+        if hasattr(c, "tracks"):
+            return [t.bars for t in c.tracks]
+        return [c.bars]
+
+    def tracks_of(c):
+        return list(c.tracks) if hasattr(c, "tracks") else ([c] if hasattr(c, "bars") else [])
+    ob, cb = bars_of(orig_c), bars_of(copy_c)
+    if [len(x) for x in ob] != [len(x) for x in cb]:
+        return [("copy-equal", f"{route}: the copy has {[len(x) for x in cb]} bars per track, the original {[len(x) for x in ob]}")]
+    for ti, (obs_, cbs) in enumerate(zip(ob, cb)):
+        for bi, (o, c) in enumerate(zip(obs_, cbs)):
+            oa = (o.time_signature_numerator, o.time_signature_denominator, o.key_signature)
+            ca = (c.time_signature_numerator, c.time_signature_denominator, c.key_signature)
+            if oa != ca:
+                fails.append(("copy-equal", f"{route}: bar {ti}/{bi} copied with attributes {ca}, original {oa}"))
+            raw = _raw(o.sequence)
+            exp = _content(raw)
+            exp = exp.get("rel") or exp.get("abs")
+            a2, r2 = U.read_direct(o.copy().sequence)       # a second copy of the ORIGINAL bar, read through its own two views
+            if U.content_rel(r2) != exp or U.content_abs(a2) != exp:
+                fails.append(("copy-equal", f"{route}: a copy of bar {ti}/{bi} does not show the original bar's content"))
+            # and the copy that takes part in the history below, looked at without calling anything on it
+            cc = _content(_raw(c.sequence))
+            if any(v != exp for v in cc.values()):
+                fails.append(("copy-equal", f"{route}: copied bar {ti}/{bi} differs from its original"))
+            if fails:
+                return fails
+    for ti, (ot, ct) in enumerate(zip(tracks_of(orig_c), tracks_of(copy_c))):
+        # (the program is compared with the ORIGINAL track's: these bars come out of sequences_split_bars, which may already have lost a
+        # program change that sat on the final bar line — D8, C08's business; o_copy_equal compares with the data put in)
+        if (ct.name, ct.program) != (ot.name, ot.program) or ct.name != TRACK_NAME:
+            fails.append(("copy-equal", f"{route}: track {ti} copied with name/program {(ct.name, ct.program)}, original {(ot.name, ot.program)}, "
+                          f"name put in {TRACK_NAME!r}"))
+    return fails
+
+
+def o_copy_equal(inp):
+    """ "a copy of a sequence, bar, track or composition equals its original" with the expectation taken from the generator's plain data: bars are
+    built directly from relative lists that are already in normal form and fit their capacity (so Bar's constructor only pads them and sets the
+    time signature message), the containers from those bars; the COPY must show, per bar: numerator, denominator, key, the events put in (the time
+    signature message first) in both views and the bar's capacity as duration; per track: the name and the program put in"""
+    from scoda.elements.bar import Bar
+    from scoda.elements.track import Track
+    from scoda.elements.composition import Composition
+    from protocol import KEYS
+    level = inp["level"]
+    built = []
+    for tr in inp["tracks"]:
+        for b in tr["bars"]:
+            # the expectation below is only right for lists the Bar constructor merely pads: well-formed notes of positive length, at most one key
+            # signature, no time signature, not longer than the bar (a shrunk input may leave that domain)
+            timed, dur = rel_timed([tuple(m) for m in b["rel"]])
+            if wf_violations(timed) or any(on >= off for (_, _, on, off, _) in notes_of(timed)) or dur > G.bar_len(b["num"], b["den"]) \
+                    or sum(1 for m in b["rel"] if m[TY] == KEYSIG) > 1 or any(m[TY] == TIMESIG for m in b["rel"]):
+                return [("~skip:outside-domain", "")]
+    try:
+        for tr in inp["tracks"]:
+            bars = [Bar(P.seq_in_state([tuple(m) for m in b["rel"]], b.get("state", "rel")), b["num"], b["den"], None if b["key"] is None else KEYS[b["key"]])
+                    for b in tr["bars"]]
+            built.append(bars)
+        if level == "bar":
+            copies = [[b.copy() for b in bars] for bars in built]
+            names = None
+        elif level == "track":
+            cp = [Track(bars, tr["name"]).copy() for bars, tr in zip(built, inp["tracks"])]
+            copies, names = [t.bars for t in cp], [(t.name, t.program) for t in cp]
+        else:
+            comp = Composition([Track(bars, tr["name"]) for bars, tr in zip(built, inp["tracks"])]).copy()
+            copies, names = [t.bars for t in comp.tracks], [(t.name, t.program) for t in comp.tracks]
+    except Exception as e:
+        if type(e).__name__ in ("BarException", "TrackException"):
+            return [("~skip:construction-refused", "")]
+        raise
+    fails = []
+    if len(copies) != len(inp["tracks"]):
+        return [("copy-equal", f"{level} copy has {len(copies)} tracks, {len(inp['tracks'])} put in")]
+    for ti, (tr, bars) in enumerate(zip(inp["tracks"], copies)):
+        if len(bars) != len(tr["bars"]):
+            return [("copy-equal", f"{level} copy: track {ti} has {len(bars)} bars, {len(tr['bars'])} put in")]
+        if names is not None:
+            progs = [m[PROG] for b in tr["bars"] for m in b["rel"] if m[TY] == PC]
+            if names[ti] != (tr["name"], progs[0] if progs else None):
+                fails.append(("copy-equal", f"{level} copy: track {ti} has name/program {names[ti]}, put in {(tr['name'], progs[0] if progs else None)}"))
+        for bi, (b, c) in enumerate(zip(tr["bars"], bars)):
+            got_attr = (c.time_signature_numerator, c.time_signature_denominator, c.key_signature)
+            exp_attr = (b["num"], b["den"], None if b["key"] is None else KEYS[b["key"]])
+            if got_attr != exp_attr:
+                fails.append(("copy-equal", f"{level} copy: bar {ti}/{bi} has attributes {got_attr}, put in {exp_attr}"))
+            rel = [tuple(m) for m in b["rel"]]
+            ev, _ = U.content_rel([G.pm(TIMESIG, 0, None, num=b["num"], den=b["den"])] + [m for m in rel if m[TY] != TIMESIG])
+            exp = (ev, G.bar_len(b["num"], b["den"]))
+            a2, r2 = U.read_direct(c.sequence, "abs-first" if (ti + bi) % 2 == 0 else "rel-first")
+            for nm, got in (("absolute", U.content_abs(a2)), ("relative", U.content_rel(r2))):
+                if got != exp:
+                    diff = [x for x in exp[0] if x not in got[0]][:3] + [x for x in got[0] if x not in exp[0]][:3]
+                    fails.append(("copy-equal", f"{level} copy: the {nm} view of bar {ti}/{bi} shows duration {got[1]} (put in {exp[1]}), differing events {diff}"))
+                    break
+            if fails:
+                return fails
+    return fails
+
+
+def gen_bar(rng, num, den):
+    """a relative list in normal form that fits a num/den bar: well-formed notes, at most one key signature, control changes, program changes
+    of ONE program (Track refuses mixed ones), no time signature (the Bar sets it)"""
+    cap = G.bar_len(num, den)
+    notes = G.gen_notes(rng, n_notes=rng.randint(0, 4), channels=(0,), pitches=[60, 62, 64, 66], max_tick=max(1, cap // 2), max_dur=max(1, cap // 2 - 1))
+    notes = [n for n in notes if n[2] + n[3] <= cap]
+    extras, have_key = [], False
+    for e in G.gen_extras(rng, max_tick=max(1, cap - 1), n=rng.choice([0, 1, 2, 3])):
+        if e[0] == TIMESIG or (e[0] == KEYSIG and have_key) or e[2] > cap:
+            continue
+        have_key = have_key or e[0] == KEYSIG
+        extras.append(e)
+    a = G.notes_to_abs(notes, extras, cap=rng.choice([None, cap, cap // 2]))
+    return G.abs_to_rel(a)
+
+
 D24D_EXAMPLE = {"init": ["rel", [G.pm(ON, 0, None, note=60, vel=64), G.pm(WAIT, 0, 12), G.pm(OFF, 0, None, note=60)]], "route": "copy",
-               "ops": [["concatOther"], ["setChannel", 5]], "side": "derived", "cuts": [24], "both_fresh": False}
+               "ops": [["concatOther"], ["setChannel", 5]], "side": "derived", "cuts": [24], "both_fresh": True}
+
+
+def observed_of(f):
+    d = f.get("detail") or ""
+    if OBS not in d:
+        return None
+    try:
+        return json.loads(d.split(OBS, 1)[1])
+    except Exception:
+        return None
 
 
 def setup(ctx):
     ctx.oracle("independent", o_independent)
+    ctx.oracle("copy-equal", o_copy_equal)
 
     def kf_d24d(f):
-        # the history hands one side to the other as an argument of concatenate
-        return any(op[0] == "concatOther" for op in f["input"]["ops"])
+        # the history hands one side to the other as an argument of concatenate: the receiver then holds the argument's message OBJECTS, and a
+        # later in-place operation on it rewrites them.  Known only for the two clauses that this can break ('independent', 'views' — never
+        # 'shared' / 'reach' / 'copy-equal', which are decided before any operation runs), and only when the OUTCOME is that mechanism: the other
+        # side's lists hold the same objects as before, every changed value belongs to an object the receiver took in, and — while the history
+        # stays inside the class the harness can predict (set_channel, scale, transpose, edits through messages_rel, once per occurrence of the
+        # object) — the other side's relative view holds exactly the predicted values
+        if f["oracle"] != "independent" or f["clause"] not in ("independent", "views"):
+            return False
+        if not any(op[0] == "concatOther" for op in f["input"]["ops"]):
+            return False
+        obs = observed_of(f)
+        if not isinstance(obs, dict) or obs.get("only_shared_objects_changed") is not True:
+            return False
+        return obs.get("predicted") is None or obs["predicted"] == obs.get("observed")
     ctx.kf_predicates["D24d"] = kf_d24d
 
 
@@ -260,12 +561,33 @@ def generate(ctx):
     heap_correspondence(ctx)
     ctx.check("independent", D24D_EXAMPLE)      # the recorded instance of the known finding
     for i in range(ctx.n(200, 4000)):
+        route = ROUTES[i % len(ROUTES)]
         a, notes = G.gen_wf_abs(rng, n_notes=rng.randint(1, 6), channels=rng.choice([(0,), (0,), (0, 1)]), max_tick=150, max_dur=60,
                                 pitches=[60, 62, 64, 66])
-        a = [m for m in a if m[0] != TIMESIG]
+        if route in ("copy", "split"):
+            if any(m[0] == TIMESIG for m in a):
+                ctx.count("original-with-time-signatures")        # any signature anywhere: these two routes do not care about bar lines
+        else:
+            # bar splitting needs time signatures ON bar lines: keep them where that can be arranged — one at tick 0 and, sometimes, a
+            # change on the first bar line after it
+            a = [m for m in a if m[0] != TIMESIG]
+            if rng.random() < 0.5:
+                n0, d0 = rng.choice(G.COMMON_SIGS)
+                a.append(G.pm(TIMESIG, 0, 0, num=n0, den=d0))
+                if rng.random() < 0.4:
+                    n1, d1 = rng.choice(G.COMMON_SIGS)
+                    a.append(G.pm(TIMESIG, 0, G.bar_len(n0, d0), num=n1, den=d1))
+                a.sort(key=lambda m: (m[2], m[1], m[0], -1 if m[3] is None else m[3]))
+                ctx.count("original-with-time-signatures")
         init = rng.choice([("abs", a), ("rel", G.abs_to_rel(a))])
-        route = ROUTES[i % len(ROUTES)]
         ops = H.gen_history(rng, rng.randint(1, 8), reads=True)
+        if rng.random() < 0.25:
+            # one side takes the other in through concatenate (D24d), somewhere in the history
+            ops.insert(rng.randint(0, len(ops) - 1), ("concatOther",))
+            if rng.random() < 0.6:
+                ops.append(rng.choice([("setChannel", rng.randrange(1, 6)), ("scale", rng.choice([2, 3]), False), ("transpose", rng.choice([1, -2, 12])),
+                                       ("editRel", 0, 1), ("editRel", 1, 99)]))
+            ctx.count("history-with-concatOther")
         side = rng.choice(["derived", "derived", "original"])
         inp = {"init": init, "route": route, "ops": ops, "side": side, "cuts": [rng.choice([12, 24, 48]) for _ in range(rng.randint(1, 3))],
                "both_fresh": rng.random() < 0.5}
@@ -281,3 +603,16 @@ def generate(ctx):
         elif route == "split":
             ctx.corr("seq", P.op_seq(init, [("split", inp["cuts"]), ("readAbs",), ("readRel",)]))
         ctx.sample({"init": [init[0], init[1][:4]], "route": route, "side": side, "ops": [o[0] for o in ops]})
+        # copies of bars / tracks / compositions built directly from plain data
+        tracks = []
+        sigs = [G.any_sig(rng) for _ in range(rng.randint(1, 3))]
+        for ti in range(rng.choice([1, 1, 2])):
+            prog = rng.randrange(8)
+            bars = []
+            for (num, den) in sigs:
+                rel = [((m[0], m[1], m[2], m[3], m[4], m[5], prog) + tuple(m[7:])) if m[0] == PC else m for m in gen_bar(rng, num, den)]
+                bars.append({"rel": rel, "num": num, "den": den, "key": rng.choice([None, rng.randrange(15)]), "state": rng.choice(P.SEQ_STATES)})
+            tracks.append({"name": rng.choice([None, "Violine", "", "träck 2"]), "bars": bars})
+        level = ("bar", "track", "composition")[i % 3]
+        ctx.count("copy-equal:" + level)
+        ctx.check("copy-equal", {"level": level, "tracks": tracks})
